@@ -664,3 +664,211 @@ Proof.
     rewrite X. destruct (tl (stack (cf_st (last (cf0 :: r) cf0)))); [reflexivity|discriminate].
   - intros i cf cf'. apply adj_b_nth. auto.
 Qed.
+
+(** ** [ndp] from a count of the OUTPUT symbols: in ONE run the encoder pops an already visited stack entry iff
+    #E < #S + 1 (each S pushes one entry more than it removes, each E removes one, the run starts with one entry and ends
+    with none; [EbTrace_proofs.ladj_strict]).  So on the outputs with #E = #S + 1 the premise of
+    [ebsim_roundtrip_noev1_partial] holds. *)
+Theorem ndp_of_count c2v opp nv niso ndeg o tr : eb_encode_tr c2v opp nv niso ndeg = EOk (o, tr) ->
+  length (o_bits o) = 1 -> ideal (rev (o_syms o)) = 0%Z -> hd 0%Z (rev (o_syms o)) = 7%Z -> ndp opp tr.
+Proof.
+  intros Et Lb Id Hd.
+  destruct (trace_coherent _ _ _ _ _ _ _ Et) as [Lt Co].
+  destruct (trace_one_run _ _ _ _ _ _ _ Et Lb) as (t & -> & [->|(A & (cfN & r & Et' & SL) & (pre & cf0 & Ep & St0))]).
+  { cbn [rev]. split; [|split].
+    - intros cf X. discriminate X.
+    - intros cf X. cbn in X. discriminate X.
+    - intros i cf cf' X. destruct i; discriminate X. }
+  assert (E0 : rev t = cf0 :: rev pre) by (rewrite Ep, rev_app_distr; reflexivity).
+  assert (S0 : syms (cf_st cf0) = []).
+  { destruct (Co 0 cf0) as [X _]; [rewrite E0; reflexivity|]. exact X. }
+  assert (Z0 : slack cf0 = 0%Z) by (unfold slack; rewrite S0, St0; reflexivity).
+  destruct (slink_slack _ _ _ _ SL) as (M1 & M2). rewrite Id in M1, M2. cbn [length] in M1, M2.
+  destruct (ladj_strict opp t A cfN r Et' ltac:(lia)) as (G & ZN).
+  { rewrite Ep, last_last. lia. }
+  split; [|split].
+  - intros cf E. rewrite E0 in E. cbn in E. inversion E; subst. exact St0.
+  - intros cf E. rewrite Et' in E. cbn [rev] in E. rewrite app_length in E. cbn [length] in E.
+    rewrite nth_error_app2 in E by lia. replace (length (rev r) + 1 - 1 - length (rev r)) with 0 in E by lia. cbn in E. inversion E; subst cf.
+    specialize (M2 ltac:(lia)). rewrite Hd in M2. unfold pushed in M2. cbn [Z.eqb Pos.eqb] in M2. auto.
+  - intros i cf cf' E1 E2. exact (gadj_rev_nth _ _ G i cf cf' E1 E2).
+Qed.
+
+(** ** the round trip on the class: symbols C S L R E, NO split event, one run, #E = #S + 1; every remove_invalid_vertices *)
+Definition class_noev (o : enc_out) : bool := class_noev1 o && (ideal (rev (o_syms o)) =? 0)%Z.
+
+Theorem ebsim_roundtrip_noev c2v opp nf nv niso ndeg o rm maxv :
+  length c2v = 3 * nf -> opp_ok c2v opp -> (forall c, c < 3 * nf -> vtx c2v c < nv) -> one_fan c2v opp ->
+  eb_encode c2v opp nv niso ndeg = EOk o -> class_noev o = true -> (cntv (rev (o_syms o)) <= maxv)%Z ->
+  let F := Z.of_nat (length (o_pcc o)) in
+  exists n s, D.eb_core (3 * F) maxv F rm (rev (o_syms o)) (o_events o) (D.bits_of_list (o_bits o)) = D.Ok (n, s) /\
+              eb_iso c2v opp (o_pcc o) (D.c2v s) (D.copp s).
+Proof.
+  intros Hlen OK Hv FAN E Cl Hm F.
+  destruct (big_step_has_trace _ _ _ _ _ _ E) as (tr & Et).
+  unfold class_noev in Cl. apply andb_prop in Cl. destruct Cl as [C1 C2]. apply Z.eqb_eq in C2.
+  assert (C1' := C1). unfold class_noev1 in C1'. apply andb_prop in C1'. destruct C1' as [C1' C4]. apply andb_prop in C1'. destruct C1' as [_ C3].
+  apply Nat.eqb_eq in C3. apply Z.eqb_eq in C4.
+  apply (ebsim_roundtrip_noev1_partial c2v opp nf nv niso ndeg o tr rm maxv); auto.
+  apply (ndp_of_count c2v opp nv niso ndeg o tr); auto.
+Qed.
+
+(** the same against [eb_decode_of] (DecodeConnectivity with its header checks) for the table built by CornerTable::Create;
+    premises as in [ebsim_roundtrip_CERL] *)
+Theorem ebsim_roundtrip_noev_ct faces t o rm : ct_create faces = Some t -> eb_encode_ct t = EOk o -> class_noev o = true ->
+  (Z.of_nat (3 * length faces + length (ct_vcorn t)) < 2147483648)%Z ->
+  ((3 * o_nfaces o) / 2 <= (o_nverts o * (o_nverts o - 1)) / 2)%Z ->
+  verts_fit o ->
+  exists n s, eb_decode_of o rm = D.Ok (n, s) /\ eb_iso (ct_c2v t) (ct_opp t) (o_pcc o) (D.c2v s) (D.copp s).
+Proof.
+  intros H E Cl Sz G3 VF.
+  destruct (ct_create_wf _ _ H) as (L & OK & Hv & FAN & _).
+  destruct (eb_encode_ct_counts faces t o H E) as (_ & _ & _ & _ & _ & Nf & _).
+  assert (Ev : o_events o = []).
+  { unfold class_noev, class_noev1 in Cl. destruct (o_events o); [reflexivity|]. rewrite !andb_false_r in Cl. cbn in Cl. discriminate. }
+  destruct (eb_encode_ct_guards faces t o rm H E Sz G3) as (Eq & _).
+  { rewrite Ev. cbn. lia. }
+  rewrite Eq. rewrite <- Nf.
+  apply (ebsim_roundtrip_noev (ct_c2v t) (ct_opp t) (length faces) (length (ct_vcorn t)) (ct_niso t) (ct_ndeg t) o rm); auto.
+Qed.
+
+(** ** the count is implied: with one start-face bit and NO split event the encoder never pops an already visited entry
+    ([EbSimEnc_proofs.encode_count_wf]: such an entry is the left corner pushed by an S; the strip that reaches its face from
+    elsewhere has the S face as a visited right / left neighbour and records an event), so #E = #S + 1 and
+    [class_noev1] = [class_noev] on the encoder's outputs. *)
+Theorem class_noev1_noev c2v opp nf nv niso ndeg o :
+  length c2v = 3 * nf -> opp_ok c2v opp -> (forall c, c < 3 * nf -> vtx c2v c < nv) -> one_fan c2v opp ->
+  eb_encode c2v opp nv niso ndeg = EOk o -> class_noev1 o = true -> class_noev o = true.
+Proof.
+  intros Hlen OK Hv FAN E C1. unfold class_noev. rewrite C1. cbn [andb].
+  assert (C1' := C1). unfold class_noev1 in C1'. apply andb_prop in C1'. destruct C1' as [C1' C4]. apply andb_prop in C1'. destruct C1' as [C1' C3].
+  apply andb_prop in C1'. destruct C1' as [_ C2].
+  apply Nat.eqb_eq in C3. apply Z.eqb_eq in C4.
+  assert (Ev : o_events o = []) by (destruct (o_events o); [reflexivity|discriminate]).
+  destruct (encode_count_wf c2v opp nf nv niso ndeg o Hlen OK Hv FAN E C3 Ev) as [X|X].
+  - rewrite X in C4. cbn in C4. discriminate.
+  - apply Z.eqb_eq. exact X.
+Qed.
+
+Theorem ebsim_roundtrip_noev1 c2v opp nf nv niso ndeg o rm maxv :
+  length c2v = 3 * nf -> opp_ok c2v opp -> (forall c, c < 3 * nf -> vtx c2v c < nv) -> one_fan c2v opp ->
+  eb_encode c2v opp nv niso ndeg = EOk o -> class_noev1 o = true -> (cntv (rev (o_syms o)) <= maxv)%Z ->
+  let F := Z.of_nat (length (o_pcc o)) in
+  exists n s, D.eb_core (3 * F) maxv F rm (rev (o_syms o)) (o_events o) (D.bits_of_list (o_bits o)) = D.Ok (n, s) /\
+              eb_iso c2v opp (o_pcc o) (D.c2v s) (D.copp s).
+Proof.
+  intros Hlen OK Hv FAN E Cl Hm. apply (ebsim_roundtrip_noev c2v opp nf nv niso ndeg o rm maxv); auto.
+  apply (class_noev1_noev c2v opp nf nv niso ndeg o); auto.
+Qed.
+
+Theorem ebsim_roundtrip_noev1_ct faces t o rm : ct_create faces = Some t -> eb_encode_ct t = EOk o -> class_noev1 o = true ->
+  (Z.of_nat (3 * length faces + length (ct_vcorn t)) < 2147483648)%Z ->
+  ((3 * o_nfaces o) / 2 <= (o_nverts o * (o_nverts o - 1)) / 2)%Z ->
+  verts_fit o ->
+  exists n s, eb_decode_of o rm = D.Ok (n, s) /\ eb_iso (ct_c2v t) (ct_opp t) (o_pcc o) (D.c2v s) (D.copp s).
+Proof.
+  intros H E Cl Sz G3 VF. apply (ebsim_roundtrip_noev_ct faces t o rm); auto.
+  destruct (ct_create_wf _ _ H) as (L & OK & Hv & FAN & _).
+  apply (class_noev1_noev (ct_c2v t) (ct_opp t) (length faces) (length (ct_vcorn t)) (ct_niso t) (ct_ndeg t) o); auto.
+Qed.
+
+(** ** the simulation along the TRACE for the class with S (no split event, one run).
+    [sim3 ... cf d]: configuration [cf] of the encoder (i = |syms| symbols emitted, about to process [cf_corner cf]) against the
+    decoder state [d] after the LAST k = ns - i symbols:
+      - SIM k d, and the faces not yet processed by the encoder are exactly the decoder's: cf_corner :: pcc = Q[k-1 .. ns-1];
+      - the STACKS correspond: the decoder's active_corner_stack lists the tip corners 3j of the faces [tops Y k], and these
+        faces are, in order, the face of [cf_corner cf] followed by the faces of the entries BELOW the top of the encoder's
+        corner_traversal_stack_ (the encoder's top entry is the start of the current strip: the decoder has not reached it);
+      - W, FI: the decoder's invariants; no pending split event. *)
+Definition sim3 (c2v : list nat) (opp : list (option nat)) (Q : list nat) (Y : list Z) (ns : nat) (NC maxv : Z) (cf : cfg) (d : D.st) : Prop :=
+  let i := length (syms (cf_st cf)) in
+  let k := ns - i in
+  SIM c2v opp Q k d /\
+  cf_corner cf :: pcc (cf_st cf) = skipn (k - 1) (firstn ns Q) /\
+  D.stack d = map (fun j => dco j 0) (tops Y k) /\
+  map (fun j => nth j Q 0) (tops Y k) = cf_corner cf :: map the (tl (stack (cf_st cf))) /\
+  Draco.Proofs.Edgebreaker_proofs.W NC maxv (Z.of_nat k) d /\ Draco.Proofs.Edgebreaker_fan_proofs.FI (Z.of_nat k) d /\
+  D.events d = [].
+
+Lemma noev1_script c2v opp nf nv niso ndeg o tr :
+  length c2v = 3 * nf -> opp_ok c2v opp -> (forall c, c < 3 * nf -> vtx c2v c < nv) -> one_fan c2v opp ->
+  eb_encode_tr c2v opp nv niso ndeg = EOk (o, tr) -> class_noev1 o = true -> ndp opp tr ->
+  forall j, j < length (o_syms o) -> script_at c2v opp nf (o_pcc o) (rev (o_syms o)) j.
+Proof.
+  intros Hlen OK Hv FAN Et Cl NDP.
+  pose proof (trace_refines_big_step_ok _ _ _ _ _ _ _ Et) as E.
+  destruct (trace_coherent _ _ _ _ _ _ _ Et) as [Lt Co].
+  pose proof (trace_steps _ _ _ _ _ _ _ Et) as Steps.
+  unfold class_noev1 in Cl. apply andb_prop in Cl. destruct Cl as [Cl C4]. apply andb_prop in Cl. destruct Cl as [Cl C3].
+  apply andb_prop in Cl. destruct Cl as [Cs C2]. apply Nat.eqb_eq in C3. apply Z.eqb_eq in C4.
+  destruct (encode_facts_wf c2v opp nf nv niso ndeg o Hlen OK Hv FAN E) as (L & ND & Fk & _ & RU & DJ).
+  destruct (eb_encode_total c2v opp nf nv niso ndeg Hlen OK Hv FAN) as [T1 T2].
+  destruct (Nat.eq_dec nf ndeg) as [Eq|Ne]; [rewrite (T1 Eq) in E; discriminate|].
+  destruct (T2 Ne) as (o' & E' & OO & _). rewrite E in E'. inversion E'; subst o'. clear E' T1 T2.
+  destruct OO as (_ & Rng & Comp & _).
+  set (Q := o_pcc o) in *. set (Y := rev (o_syms o)) in *. set (ns := length (o_syms o)) in *.
+  assert (LY : length Y = ns) by (unfold Y; apply rev_length).
+  assert (LQ : ns <= length Q) by lia.
+  intros j Hj.
+  assert (Y0 : nth_error Y 0 = Some 7%Z). { destruct Y as [|y0 Y']; [cbn in LY; lia|]. cbn in C4 |- *. congruence. }
+  pose proof (S_stack_facts opp Q (o_syms o) tr Lt Co LQ Steps NDP) as SF. fold Y ns in SF.
+  destruct (nth_error Y j) as [y|] eqn:Ey; [|apply nth_error_None in Ey; lia].
+  assert (Hy : is_sym y = true). { rewrite forallb_forall in Cs. apply Cs. apply in_rev. eapply nth_error_In; eauto. }
+  destruct (Z.eq_dec y 1) as [->|Ny].
+  + destruct (SF j Y0 Hj Ey) as (K1 & Er & ja & T & ET & El).
+    destruct (Fk j 1%Z Ey) as (A & B & C & Dd). cbv zeta in Dd.
+    destruct Dd as [(D1 & _)|[(D1 & _)|[(D1 & _)|[(D1 & _)|(_ & SB)]]]]; try discriminate.
+    unfold script_at. fold Y. rewrite Ey. right. right. right. right.
+    split; auto. split; auto. split; [exact Er|]. split.
+    { unfold ncr, eco. cbn [rot]. destruct (opp_at opp (nth j Q 0)) as [o0|] eqn:Eo; auto. }
+    split; [exists ja, T; split; [exact ET|exact El]|]. exact SB.
+  + apply (efact_script c2v opp nf Q Y j y); auto; try lia.
+    clear - Hy Ny. unfold is_sym in Hy. unfold is_CERL. lia.
+Qed.
+
+Theorem ebsim_trace_noev1 c2v opp nf nv niso ndeg o tr rm maxv :
+  length c2v = 3 * nf -> opp_ok c2v opp -> (forall c, c < 3 * nf -> vtx c2v c < nv) -> one_fan c2v opp ->
+  eb_encode_tr c2v opp nv niso ndeg = EOk (o, tr) -> class_noev1 o = true -> (cntv (rev (o_syms o)) <= maxv)%Z ->
+  let ns := length (o_syms o) in
+  let NC := (3 * Z.of_nat (length (o_pcc o)))%Z in
+  length tr = ns /\
+  forall i cf, nth_error tr i = Some cf ->
+    length (syms (cf_st cf)) = i /\
+    exists d, D.sym_loop NC maxv rm (Z.of_nat ns) (firstn (ns - i) (rev (o_syms o))) 0 (D.init_st []) = D.Ok d /\
+              sim3 c2v opp (o_pcc o) (rev (o_syms o)) ns NC maxv cf d.
+Proof.
+  intros Hlen OK Hv FAN Et Cl Hm ns NC.
+  pose proof (trace_refines_big_step_ok _ _ _ _ _ _ _ Et) as E.
+  destruct (trace_coherent _ _ _ _ _ _ _ Et) as [Lt Co]. fold ns in Lt, Co. split; auto.
+  pose proof (trace_steps _ _ _ _ _ _ _ Et) as Steps.
+  assert (NDP : ndp opp tr).
+  { pose proof (class_noev1_noev c2v opp nf nv niso ndeg o Hlen OK Hv FAN E Cl) as Cn. unfold class_noev in Cn.
+    apply andb_prop in Cn. destruct Cn as [C1 C2]. apply Z.eqb_eq in C2.
+    unfold class_noev1 in C1. apply andb_prop in C1. destruct C1 as [C1 C4]. apply andb_prop in C1. destruct C1 as [_ C3].
+    apply Nat.eqb_eq in C3. apply Z.eqb_eq in C4. apply (ndp_of_count c2v opp nv niso ndeg o tr); auto. }
+  pose proof (noev1_script c2v opp nf nv niso ndeg o tr Hlen OK Hv FAN Et Cl NDP) as Sc. fold ns in Sc.
+  destruct (encode_facts_wf c2v opp nf nv niso ndeg o Hlen OK Hv FAN E) as (L & ND & _).
+  destruct (eb_encode_total c2v opp nf nv niso ndeg Hlen OK Hv FAN) as [T1 T2].
+  destruct (Nat.eq_dec nf ndeg) as [Eq|Ne]; [rewrite (T1 Eq) in E; discriminate|].
+  destruct (T2 Ne) as (o' & E' & OO & _). rewrite E in E'. inversion E'; subst o'. clear E' T1 T2.
+  destruct OO as (_ & Rng & Comp & _).
+  rewrite rev_length in L. fold ns in L.
+  intros i cf Ecf. destruct (Co i cf Ecf) as [C1 C2].
+  assert (Hi : i < ns). { rewrite <- Lt. apply nth_error_Some. congruence. }
+  assert (Li : length (syms (cf_st cf)) = i). { rewrite C1, rev_length, firstn_length_le; auto. unfold ns in Hi. lia. }
+  split; auto.
+  assert (Rq : forall j, j < length (o_pcc o) -> nth j (o_pcc o) 0 < 3 * nf /\ is_degenerated c2v (nth j (o_pcc o) 0 / 3) = false).
+  { intros j Hj. rewrite Forall_forall in Rng. apply Rng. apply nth_In. auto. }
+  assert (HYQ : length (rev (o_syms o)) <= length (o_pcc o)) by (rewrite rev_length; fold ns; lia).
+  destruct (sym_loop_sim c2v opp nf Hlen OK (o_pcc o) Rq ND NC maxv rm (rev (o_syms o)) eq_refl HYQ Hm FAN) with (k := ns - i)
+    as (d & Ed & HS & HW & HF & Hnv & Hev & _ & Hst).
+  - rewrite rev_length. fold ns. lia.
+  - intros j Hj. apply Sc. lia.
+  - exists d. rewrite rev_length in Ed. fold ns in Ed. split; auto. unfold sim3. rewrite Li. fold ns.
+    split; auto. split. { rewrite C2. f_equal. lia. }
+    split; auto. split; auto.
+    assert (LQ : ns <= length (o_pcc o)) by lia.
+    pose proof (tops_stack opp (o_pcc o) (o_syms o) tr Lt Co LQ Steps NDP (ns - 1 - i) ltac:(fold ns; lia)) as TS. cbv zeta in TS. fold ns in TS.
+    replace (ns - 1 - (ns - 1 - i)) with i in TS by lia. replace (S (ns - 1 - i)) with (ns - i) in TS by lia.
+    rewrite (nth_error_nth _ _ _ Ecf) in TS. exact TS.
+Qed.
